@@ -664,10 +664,8 @@ def oracle(ctx: Ctx, p: Dict[str, Any], results: Dict[Tuple[int, str, str], List
                 k = ""
             elif k and not template_collision and p.get("_base") is not None:
                 # attribution experiment (once per project): the same build with ONLY pydoctor/extensions listed in name order
-                pinned = run_build(p, p["_src"], p["_base"] / ("out_pin_%d" % hs), hs, mode, p["_base"] / ("side_pin_%d.json" % hs),
-                                   "", first["clock"], pin="pydoctor/extensions")
-                shutil.rmtree(p["_base"] / ("out_pin_%d" % hs), ignore_errors=True)
-                if not diff_kind(base_same_seed["post"], pinned["post"]):
+                pinned = ext_order_experiment(p, hs, mode, base_same_seed["clock"], "m%d" % hs)
+                if pinned["exit"] in (0, 2, 3) and not diff_kind(base_same_seed["post"], pinned["post"]):
                     p["_ext_order_cause"] = True
                     ctx.fail("listing-order:extension-load-order", inp,
                              "hash seed %d: listing order %s vs %s changes %s; with only pydoctor/extensions/ listed in name order the "
@@ -712,6 +710,17 @@ def oracle(ctx: Ctx, p: Dict[str, Any], results: Dict[Tuple[int, str, str], List
                           nontrivial=len(p["roots"]) >= 2 or pkg3)
 
 
+def ext_order_experiment(p: Dict[str, Any], hs: int, mode: str, clock: int, name: str, tag: str = "") -> Dict[str, Any]:
+    """the build (hs, mode) again, at the given wall clock, with ONLY pydoctor/extensions/ listed in name order"""
+    out = p["_base"] / ("out_pin_" + name)
+    r = run_build(p, p["_src"], out, hs, mode, p["_base"] / ("side_pin_%s.json" % name), tag, clock, pin="pydoctor/extensions")
+    if r["exit"] not in (0, 2, 3):          # a loaded machine: once more
+        shutil.rmtree(out, ignore_errors=True)
+        r = run_build(p, p["_src"], out, hs, mode, p["_base"] / ("side_pin_%s.json" % name), tag, clock, pin="pydoctor/extensions")
+    shutil.rmtree(out, ignore_errors=True)
+    return r
+
+
 def oracle_buildtime_pair(ctx: Ctx, p: Dict[str, Any], inp: Dict[str, Any], results: Dict[Tuple[int, str, str], List[Dict[str, Any]]],
                           ref: Optional[Dict[str, Any]], already: bool, nontrivial: bool = True) -> None:
     """SOURCE_DATE_EPOCH unset, the same --buildtime: two builds with different hash seed, listing order and wall clock"""
@@ -734,6 +743,21 @@ def oracle_buildtime_pair(ctx: Ctx, p: Dict[str, Any], inp: Dict[str, Any], resu
             if not already:
                 ctx.fail("wall-clock:rst-date-directive", inp, "two builds with the same --buildtime at two wall-clock seconds differ in %s; "
                          "the sources use the reStructuredText `date` directive" % diff_snap(bts[0]["post"], bts[1]["post"])[:4])
+        elif k and p.get("cmodule") and bts[0]["hashseed"] != bts[1]["hashseed"] and \
+                set(diff_snap(bts[0]["post"], bts[1]["post"])) <= {p["cmodule"] + ".cmod.html"}:
+            if not already:
+                ctx.fail("hashseed:introspected-set-default", inp, "--buildtime builds under PYTHONHASHSEED %d / %d differ in %s.cmod.html only" % (
+                    bts[0]["hashseed"], bts[1]["hashseed"], p["cmodule"]))
+        elif k and not already and bts[0]["mode"] != bts[1]["mode"] and p.get("_base") is not None:
+            # the pair differs in listing order as well: is it the extension load order? (both builds with pydoctor/extensions pinned)
+            a = ext_order_experiment(p, bts[0]["hashseed"], bts[0]["mode"], bts[0]["clock"], "bta", "bt")
+            b = ext_order_experiment(p, bts[1]["hashseed"], bts[1]["mode"], bts[1]["clock"], "btb", "bt")
+            if not diff_kind(a["post"], b["post"]):
+                ctx.fail("listing-order:extension-load-order", inp, "--buildtime builds under listing orders %s / %s differ in %s; with only "
+                         "pydoctor/extensions/ listed in name order they are equal" % (bts[0]["mode"], bts[1]["mode"], diff_snap(bts[0]["post"], bts[1]["post"])[:4]))
+            else:
+                ctx.fail("buildtime:" + k, inp, "two builds with the same --buildtime (hash seed, listing order and wall clock differ) "
+                         "differ in %s" % diff_snap(bts[0]["post"], bts[1]["post"])[:4])
         elif k and not already:       # otherwise the cause has been named by the SOURCE_DATE_EPOCH matrix
             n0, n1 = bts[0]["side"].get("projectname"), bts[1]["side"].get("projectname")
             if multi_unnamed and n0 != n1:
